@@ -691,6 +691,54 @@ def dict_skel(tree):
 
 
 # ---------------------------------------------------------------- _exception.py
+def exception_init_steps(fn):
+    """MatchesException.__init__: `self.expected = exception`; a str value_re becomes `AfterPreprocessing(str, MatchesRegex(value_re), False)`;
+    `self.value_re = value_re`; `self._is_instance` = type(expected) is not a SUBCLASS of type / tuple (written with issubclass over
+    the two, with issubclass(T, (type, tuple)) or with isinstance(expected, (type, tuple)) - an exact comparison of the type is not it)"""
+    b = body_of(fn)
+    ps = params(fn)
+    if len(ps) != 2:
+        return ['.unknown']
+    exc, vre = ps
+    src = [u(x) for x in b]
+    steps = []
+    wrap = 'if isinstance(%s, str):\n    %s = AfterPreprocessing(str, MatchesRegex(%s), False)' % (vre, vre, vre)
+    keeps = 'self.expected = %s' % exc in src and 'self.value_re = %s' % vre in src
+    ok = keeps and wrap in src and src.index(wrap) < src.index('self.value_re = %s' % vre)
+    steps.append('.strValueReIsRegexOnStr' if ok else '.unknown')
+    alias = {u(x.targets[0]): u(x.value) for x in b if isinstance(x, ast.Assign) and len(x.targets) == 1 and isinstance(x.targets[0], ast.Name)}
+    inst = [x for x in b if isinstance(x, ast.Assign) and u(x.targets[0]) == 'self._is_instance']
+    good = False
+    if len(inst) == 1 and keeps and src.index('self.expected = %s' % exc) < src.index(u(inst[0])):
+        v = inst[0].value
+        if isinstance(v, ast.UnaryOp) and isinstance(v.op, ast.Not):
+            e = v.operand
+            tys = ('type(self.expected)', 'type(%s)' % exc, 'self.expected.__class__', '%s.__class__' % exc)
+            objs = ('self.expected', exc)
+            pair = ('(type, tuple)', '(tuple, type)', '[type, tuple]', '[tuple, type]')
+            t = lambda x: alias.get(x, x)
+            if isinstance(e, ast.Call) and u(e.func) == 'any' and len(e.args) == 1 and isinstance(e.args[0], (ast.GeneratorExp, ast.ListComp)) \
+                    and len(e.args[0].generators) == 1 and not e.args[0].generators[0].ifs:
+                g = e.args[0].generators[0]
+                el = e.args[0].elt
+                good = isinstance(g.target, ast.Name) and u(g.iter) in pair and isinstance(el, ast.Call) and u(el.func) == 'issubclass' \
+                    and len(el.args) == 2 and t(u(el.args[0])) in tys and u(el.args[1]) == g.target.id
+            elif isinstance(e, ast.Call) and u(e.func) == 'issubclass' and len(e.args) == 2:
+                good = t(u(e.args[0])) in tys and u(e.args[1]) in pair[:2]
+            elif isinstance(e, ast.Call) and u(e.func) == 'isinstance' and len(e.args) == 2:
+                good = u(e.args[0]) in objs and u(e.args[1]) in pair[:2]
+            elif isinstance(e, ast.BoolOp) and isinstance(e.op, ast.Or) and len(e.values) == 2:
+                got = sorted(u(x) for x in e.values)
+                good = any(got == sorted('issubclass(%s, %s)' % (ty, c) for c in ('type', 'tuple')) for ty in tys + tuple(k for k, w in alias.items() if w in tys)) \
+                    or any(got == sorted('isinstance(%s, %s)' % (o, c) for c in ('type', 'tuple')) for o in objs)
+    steps.append('.instanceUnlessClassOrTuple' if good else '.unknown')
+    return steps
+
+
+def matches_exception_all(init, match):
+    return '[%s]' % ', '.join(exception_init_steps(init) + matches_exception_steps(match)[1:-1].split(', '))
+
+
 def matches_exception_steps(fn):
     b = body_of(fn)
     ps = params(fn)
@@ -958,7 +1006,7 @@ def generate(repo):
         ('matchesSetwise', 'SetwiseSkel', lambda: setwise_skel(find(ds, 'MatchesSetwise.match'))),
         ('containsAll', 'ContainsAllSkel', lambda: contains_all_skel(find(ds, 'ContainsAll'))),
         ('dictMatchers', 'DictSkel', lambda: dict_skel(di)),
-        ('matchesException', 'List ExcStep', lambda: matches_exception_steps(find(ex, 'MatchesException.match'))),
+        ('matchesException', 'List ExcStep', lambda: matches_exception_all(find(ex, 'MatchesException.__init__'), find(ex, 'MatchesException.match'))),
         ('raisesM', 'RaisesSkel', lambda: raises_skel(find(ex, 'Raises.match'))),
         ('mismatch', 'MismatchSrc', lambda: mismatch_src(im, truth_overrides(repo))),
         ('mismatchErrorStr', 'ErrStrSrc', lambda: err_str_src(find(im, 'MismatchError.__str__'))),
